@@ -143,10 +143,11 @@ def _short(case):
     return f"s={show_terms(case.get('s', []))} t={show_terms(case.get('t', []))} c={case.get('cf')} order={case.get('ord')}"
 
 
-def buffers(dim):
-    """buffer_size values (bytes) giving 1, 2, 3 matrices per batch of the sparse builder, and the default."""
+def buffers(dim, default=True):
+    """buffer_size values (bytes) giving 1, 2, 3 matrices per batch of the sparse builder, and the default (1 GB: the builder
+    allocates the whole buffer, ~7 ms per call, so the default is exercised on a quarter of the cases only)."""
     per = 24 * dim
-    return [None, 1, 2 * per, 3 * per]
+    return ([None] if default else []) + [1, 2 * per, 3 * per]
 
 
 def sparsity_classes(terms, ordr):
@@ -193,7 +194,8 @@ def replay_word(cx, case, rng):
     cx.sent("word:operation:pauli_sentence", lambda: qp.pauli.pauli_sentence(pw.operation(wire_order=wo)), one, L, case)
     ps = PauliSentence({pw: 1.0})
     cx.mat("sent:to_mat:dense", lambda: ps.to_mat(wire_order=wo), exp, case, L)
-    cx.mat("sent:to_mat:csr", lambda: ps.to_mat(wire_order=wo, format="csr"), exp, case, L)
+    dflt = (sum(case["a"]) + sum(case["ord"])) % 4 == 0
+    cx.mat("sent:to_mat:csr", lambda: ps.to_mat(wire_order=wo, format="csr", buffer_size=None if dflt else 48 * len(exp)), exp, case, L)
     cx.sent("decompose:dense", lambda: qp.pauli_decompose(exp, wire_order=wo, pauli=True), one, L, case)
     cx.sent("decompose:sparse", lambda: qp.pauli_decompose(sps.csr_matrix(exp), wire_order=wo, pauli=True), one, L, case)
     if any(case["a"]):
@@ -257,15 +259,15 @@ def replay_sent(cx, case, rng):
     exp = ring_matrix_to_numpy(case["mat"], M)
     expp = ring_matrix_to_numpy(case["matp"], M)
     cx.mat("sent:to_mat:dense", lambda: s.to_mat(wire_order=wo), exp, case, L)
-    for b in buffers(dim):
+    for b in buffers(dim, case["i"] % 4 == 0):
         cx.mat("sent:to_mat:csr" + ("" if b is None else ":buffer"), lambda b=b: s.to_mat(wire_order=wo, format="csr", buffer_size=b), exp, case, L)
-    cx.mat("sent:to_mat:csc", lambda: s.to_mat(wire_order=wo, format="csc"), exp, case, L)
+    cx.mat("sent:to_mat:csc", lambda: s.to_mat(wire_order=wo, format="csc", buffer_size=2 * 24 * dim), exp, case, L)
     cx.mat("sent:qp.matrix", lambda: qp.matrix(s, wire_order=wo), exp, case, L)
     cx.mat("sent:operation:matrix", lambda: qp.matrix(s.operation(wire_order=wo), wire_order=wo), exp, case, L)
     cx.sent("sent:operation:pauli_sentence", lambda: qp.pauli.pauli_sentence(s.operation(wire_order=wo)), case["sn"], Ln, case)
     p = s @ t
     cx.mat("sent:matmul:to_mat:dense", lambda: p.to_mat(wire_order=wo), expp, case, L)
-    for b in (None, 1, 2 * 24 * dim):
+    for b in (1, 2 * 24 * dim):
         cx.mat("sent:matmul:to_mat:csr" + ("" if b is None else ":buffer"), lambda b=b: p.to_mat(wire_order=wo, format="csr", buffer_size=b), expp, case, L)
     ncls, nw = sparsity_classes(case["mul"], case["ord"])
     if nw > ncls:
@@ -388,7 +390,7 @@ def run_trace(name, recs):
 def run(tier, seed):
     rng = random.Random(seed)
     quick = tier == "quick"
-    NS = 500 if quick else 8000
+    NS = 200 if quick else 6000
     cx = Ctx()
     # ---- (M)+(R): generator, laws decided on the reference, expected values
     wd = lib.workdir(PID, "gen")
@@ -454,7 +456,7 @@ def run(tier, seed):
         sn, _ = dict_to_terms({w: c for w, c in terms_to_dict(r["a"]).items() if c != 0})
         n_big += 1
         cx.mat("sent:to_mat:dense", lambda: s.to_mat(wire_order=wo), exp, case, L)
-        for b in buffers(len(exp)):
+        for b in buffers(len(exp), n_big % 4 == 0):
             cx.mat("sent:to_mat:csr" + ("" if b is None else ":buffer"), lambda b=b: s.to_mat(wire_order=wo, format="csr", buffer_size=b), exp, case, L)
         cx.mat("sent:operation:matrix", lambda: qp.matrix(s.operation(wire_order=wo), wire_order=wo), exp, case, L)
         zero = not sn
